@@ -348,6 +348,11 @@ def run(ctx):
             and "[-1]" not in txt
         r2.check(ok, "workbook_to_json:in_repeat", "in_repeat is any(<frame is repeat> for every frame of the stack)", w2j.loc(call),
                  why_fail=f"in_repeat = {txt}")
+        if isinstance(arg, ast.Name):
+            # ... computed in THIS iteration before the call: a value carried over from the previous row describes that row
+            assigns_ = set(g.nodes_for(lambda n: isinstance(n.stmt, ast.Assign) and any(isinstance(t, ast.Name) and t.id == arg.id for t in n.stmt.targets)))
+            r2.check(bool(assigns_) and g.must_pass(g.entry, nid, assigns_), f"workbook_to_json:{arg.id} is fresh at {norm(call)[:50]}", "the flag is assigned in the same iteration on every path to the call", w2j.loc(call),
+                     why_fail=f"some path from the top of the loop body reaches the call without assigning `{arg.id}`: it still holds the previous row's value")
         a3 = call.args[3] if len(call.args) > 3 else None
         r2.check(isinstance(a3, ast.Name) and a3.id == "entity_declaration", "workbook_to_json:validate_entity_saveto.declaration",
                  "the parsed entity declaration is what save_to is validated against", w2j.loc(call))
@@ -564,6 +569,37 @@ def run(ctx):
             got_hist.append(sv_.attrs.get("entity_features") if isinstance(sv_, Obj) else repr(sv_))
     except Raised as e:
         got_hist.append(f"raises {e.exc_name}{e.exc_args}")
+    # after the row loop: a declaration whose expressions name a group, a repeat, a generated node (<repeat>_count,
+    # <select>_other, instanceID) or a plain question is accepted as it is - the statements after the row loop, evaluated
+    # with such declarations, refuse nothing and put the declaration into meta
+    from ..rowloop import row_loop_of
+    from ..interp import _Return
+    w2j_ = ctx.func("pyxform.xls2json:workbook_to_json", "C19.R4")
+    loop_ = row_loop_of(w2j_)
+    li_ = next((i_ for i_, st_ in enumerate(w2j_.node.body) if st_ is loop_), None)
+    after_ = w2j_.node.body[li_ + 1:] if li_ is not None else []
+    for desc_, expr_ in (("a plain question", "${a}"), ("a repeat", "count(${visits}) > 0"), ("a group", "${household} != ''"), ("a generated count node", "${visits_count} > 1"),
+                         ("a generated other node", "${fruit_other}"), ("the instance id", "${instanceID}"), ("no reference", "true()")):
+        decl_ = {"name": "entity", "type": "entity", "parameters": {"dataset": "trees", "create_if": expr_, "label": f"concat({expr_}, 'x')"}}
+        root_ = []
+        jd_ = {}
+        env_ = {"settings": {}, "meta_children": [], "entity_declaration": decl_, "json_dict": jd_, "stack": [{"parent_children": root_}], "warnings": [], "trigger_references": [], "question_names": {"a", "fruit"},
+                "sheet_translations": Obj(None, {"or_other_check": lambda i, a, k, n: None, "or_other_seen": False}, name="sheet_translations"), "survey_sheet": Obj(None, {"data": [], "headers": ()}, name="survey_sheet")}
+        ita_ = ctx.interp("C19.R4", inline=lambda fi: True)
+        ita_.reset([])
+        try:
+            try:
+                ita_.exec_block(after_, env_, w2j_.module)
+            except _Return:
+                pass
+            meta_ = [c_ for c_ in root_ if isinstance(c_, dict) and c_.get("name") == "meta"]
+            got_ = "accepted" if meta_ and decl_ in (meta_[0].get("children") or []) and jd_.get("entity_features") else f"accepted without the declaration in meta: {root_!r}"[:120]
+        except Raised as e:
+            got_ = f"refused: {e.exc_name} {str(e.exc_args[0])[:80] if e.exc_args else ''}"
+        except AnalysisError as e:
+            r4.note(f"the statements after the row loop read state this evaluation does not provide ({e})")
+            break
+        r4.check(got_ == "accepted", f"after the row loop[entity expressions name {desc_}]", "the declaration is accepted and placed in meta", w2j_.loc(after_[0]) if after_ else w2j_.loc(), why_fail=got_)
     r4.check(got_hist == [FEATS, None, FEATS, None], "builder history[entity form, plain form, entity form, plain form]", "each built survey has exactly the entity features its own definition lists", cf.loc(),
              why_fail=repr(got_hist))
     rules.append(r4)
